@@ -25,10 +25,11 @@ type C18 struct {
 	Vals   []hub.Validator
 	Powers []int64
 	Stranger sdk.AccAddress
+	Lists    int // holder lists in the alphabet: L0..L2, with 4 also the empty list L3
 }
 
 func NewC18(powers []int64) *C18 {
-	c := &C18{Powers: powers, Stranger: hub.User("stranger")}
+	c := &C18{Powers: powers, Stranger: hub.User("stranger"), Lists: 3}
 	for i := range powers {
 		c.Vals = append(c.Vals, hub.NewValidator(string(rune('A'+i))))
 	}
@@ -53,7 +54,7 @@ var c18Names = []string{"eth", "ethereum/gas", "bnb", "bsc/gas", "hub"}
 
 // price sets: value of every required name; set 2 omits a required price
 func c18Prices(set int64) *oracletypes.Prices {
-	base := map[int64]int64{0: 100, 1: 300, 3: 200, 4: 300}[set]
+	base := map[int64]int64{0: 100, 1: 300, 3: 200, 4: 300, 5: 300}[set]
 	var l []*oracletypes.Price
 	for i, n := range c18Names {
 		if set == 2 && i == 4 {
@@ -69,6 +70,11 @@ func c18Prices(set int64) *oracletypes.Prices {
 			l = append(l, &oracletypes.Price{Name: n, Value: sdk.NewDec(b + int64(i))})
 		}
 	}
+	if set == 5 {
+		// set 5 = set 1 plus two further names that differ from a required one only in letter case: other
+		// names, not a second and third report of "eth"
+		l = append(l, &oracletypes.Price{Name: "ETH", Value: sdk.NewDec(9000)}, &oracletypes.Price{Name: "Eth", Value: sdk.NewDec(9000)})
+	}
 	return &oracletypes.Prices{List: l}
 }
 
@@ -78,6 +84,8 @@ func c18Holders(list int64) *oracletypes.Holders {
 		return &oracletypes.Holders{List: []*oracletypes.Holder{{Address: "0xaa", Value: sdk.NewInt(5)}, {Address: "0xbb", Value: sdk.NewInt(7)}}}
 	case 1: // same content as list 0, other order (identical list)
 		return &oracletypes.Holders{List: []*oracletypes.Holder{{Address: "0xbb", Value: sdk.NewInt(7)}, {Address: "0xaa", Value: sdk.NewInt(5)}}}
+	case 3: // the empty list: nobody holds anything any more
+		return &oracletypes.Holders{}
 	default:
 		return &oracletypes.Holders{List: []*oracletypes.Holder{{Address: "0xaa", Value: sdk.NewInt(6)}}}
 	}
@@ -139,8 +147,9 @@ func (c *C18) Ops(s *HState) []engine.Op {
 		ops = append(ops, engine.OpN("Price", v, -1, 0), engine.OpN("Price", v, 1, 1))
 		if v == 0 {
 			ops = append(ops, engine.OpN("Price", v, 0, 4)) // every name listed twice
+			ops = append(ops, engine.OpN("Price", v, 0, 5)) // case variants of a required name as further names
 		}
-		for l := 0; l < 3; l++ {
+		for l := 0; l < c.Lists; l++ {
 			ops = append(ops, engine.OpN("Holders", v, 0, l))
 		}
 		ops = append(ops, engine.OpN("Holders", v, -1, 0), engine.OpN("Holders", v, 1, 0))
@@ -223,6 +232,32 @@ func (c *C18) changeOracle(in *hub.Instance, g *c18Ghost, pre c18Stored, boundar
 	post := c.stored(in)
 	pc := !bytes.Equal(pre.prices, post.prices)
 	hc := !bytes.Equal(pre.holders, post.holders)
+	if boundary {
+		// the other direction for holder lists: a list that more than two thirds of the stake reported identically in
+		// this epoch is the list in force afterwards (a list that stays behind keeps discounts nobody attests any more)
+		total, by := int64(0), map[string]int64{}
+		for i, v := range in.Staking.Vals {
+			if !v.Bonded {
+				continue
+			}
+			total += v.Power
+			if l, ok := g.Holders[fmt.Sprintf("%d/%d", epoch, i)]; ok && i < len(c.Vals) {
+				by[holdersCanon(c18Holders(l))] += v.Power
+			}
+		}
+		for list, w := range by {
+			if 3*w > 2*total {
+				st.Count("holder_lists_attested", 1)
+				now := holdersCanon(in.Oracle.GetHolders(in.Ctx()))
+				if now == "<nil>" {
+					now = "" // no stored list and the empty list are the same thing: nobody has a discount
+				}
+				if now != list {
+					st.Violate("C18", "attested_holder_list_not_in_force", "storeHolders", "epoch %d: {%s} reported identically by %d of %d stake, list in force afterwards {%s}", epoch, list, w, total, now)
+				}
+			}
+		}
+	}
 	if !pc && !hc {
 		return
 	}
@@ -339,6 +374,7 @@ type c18GridCase struct {
 	// 4 / 5 two one-entry lists whose addresses are the single bytes 0xfe / 0xff, 6 / 7 a two-entry list and a one-entry list whose
 	// address spells the first one's separator
 	Holders []int
+	Prior   int // holder-list cases: a list (code as above) every validator reports in an epoch before, 0 none; code 8 is the empty list
 }
 
 // c18HolderGridCases: holder lists reported by a stake share at, just below and just above two thirds, with and without
@@ -361,6 +397,16 @@ func c18HolderGridCases() []c18GridCase {
 	}
 	out = append(out, c18GridCase{Powers: []int64{34, 33, 33}, Holders: []int{4, 5, 5}}, c18GridCase{Powers: []int64{33, 33, 34}, Holders: []int{5, 5, 4}})
 	out = append(out, c18GridCase{Powers: []int64{34, 33, 33}, Holders: []int{6, 7, 7}}, c18GridCase{Powers: []int64{33, 33, 34}, Holders: []int{7, 7, 6}})
+	// a list is in force from an earlier epoch; then everybody (or just over two thirds) reports the empty list, another list, or
+	// not enough agree
+	for _, prior := range []int{6, 1} {
+		out = append(out,
+			c18GridCase{Powers: []int64{10, 10, 10}, Holders: []int{8, 8, 8}, Prior: prior},
+			c18GridCase{Powers: []int64{34, 33, 33}, Holders: []int{8, 8, 0}, Prior: prior},
+			c18GridCase{Powers: []int64{34, 33, 33}, Holders: []int{8, 0, 0}, Prior: prior},
+			c18GridCase{Powers: []int64{10, 10, 10}, Holders: []int{2, 2, 2}, Prior: prior},
+			c18GridCase{Powers: []int64{10, 10, 10}, Holders: []int{8, 8, 2}, Prior: prior})
+	}
 	return out
 }
 
@@ -378,11 +424,41 @@ func c18RunHolderGrid(in *hub.Instance, cs c18GridCase) (string, *engine.Violati
 			return &oracletypes.Holders{List: []*oracletypes.Holder{{Address: string([]byte{0xfa + byte(code)}), Value: sdk.NewInt(5)}}}
 		case 6:
 			return &oracletypes.Holders{List: []*oracletypes.Holder{{Address: "0xaaaa", Value: sdk.NewInt(5)}, {Address: "0xbbbb", Value: sdk.NewInt(7)}}}
+		case 8:
+			return &oracletypes.Holders{}
 		case 7:
 			// one entry whose free-form address contains the separators of a textual list encoding
 			return &oracletypes.Holders{List: []*oracletypes.Holder{{Address: `0xaaaa:5","0xbbbb`, Value: sdk.NewInt(7)}}}
 		}
 		return c18Holders([]int64{0, 2, 1}[code-1])
+	}
+	norm := func(s string) string {
+		if s == "<nil>" {
+			return "" // no stored list and the empty list are the same thing: nobody has a discount
+		}
+		return s
+	}
+	if cs.Prior != 0 {
+		for _, v := range c.Vals {
+			if r := in.DeliverMsg(&oracletypes.MsgHoldersClaim{Epoch: epoch, Holders: list(cs.Prior), Orchestrator: v.Acc.String()}); !r.OK() {
+				return "claim-rejected", nil
+			}
+		}
+		for {
+			b := in.Height%5 == 0
+			if p := in.NextBlock(5); p != nil {
+				return "block-failure", nil
+			}
+			if b {
+				break
+			}
+		}
+		epoch = in.Oracle.GetCurrentEpoch(in.Ctx())
+		before = holdersCanon(in.Oracle.GetHolders(in.Ctx()))
+		if before != holdersCanon(list(cs.Prior)) {
+			return "bad", &engine.Violation{Property: "C18", Rule: "attested_holder_list_not_in_force", Site: "storeHolders",
+				Detail: fmt.Sprintf("powers %v: every validator reported {%s}, list in force afterwards {%s}", cs.Powers, holdersCanon(list(cs.Prior)), before)}
+		}
 	}
 	for i, v := range c.Vals {
 		W += cs.Powers[i]
@@ -404,11 +480,20 @@ func c18RunHolderGrid(in *hub.Instance, cs c18GridCase) (string, *engine.Violati
 		}
 	}
 	after := holdersCanon(in.Oracle.GetHolders(in.Ctx()))
+	if cs.Prior != 0 {
+		// small exact stakes: a list more than two thirds reported identically is the one in force now
+		for l, w := range same {
+			if 3*w > 2*W && norm(after) != l {
+				return "bad", &engine.Violation{Property: "C18", Rule: "attested_holder_list_not_in_force", Site: "storeHolders",
+					Detail: fmt.Sprintf("powers %v, reports %v after {%s} was in force: {%s} reported identically by %d of %d stake, list in force afterwards {%s}", cs.Powers, cs.Holders, before, l, w, W, after)}
+			}
+		}
+	}
 	if after == before {
 		return "holders-unchanged", nil
 	}
 	for l, w := range same {
-		if l == after {
+		if l == norm(after) {
 			if 3*w <= 2*W {
 				return "bad", &engine.Violation{Property: "C18", Rule: "holders_adopted_without_two_thirds_identical", Site: "AttestationHandler.Handle",
 					Detail: fmt.Sprintf("powers %v, reports %v: the list reported by %d of %d stake (not more than two thirds) was adopted", cs.Powers, cs.Holders, w, W)}
@@ -552,11 +637,15 @@ func init() {
 			if len(pv) > 3 {
 				d-- // larger alphabet
 			}
-			cases = append(cases, MultiCase{Name: fmt.Sprint("powers=", pv), Spec: NewC18(pv), Cfg: engine.Config{MaxDepth: d, Deadline: dl, ReplayLeaf: 10}})
+			spec := NewC18(pv)
+			if tier == "thorough" {
+				spec.Lists = 4
+			}
+			cases = append(cases, MultiCase{Name: fmt.Sprint("powers=", pv), Spec: spec, Cfg: engine.Config{MaxDepth: d, Deadline: dl, ReplayLeaf: 10}})
 		}
 		return cases, []string{
-			"claims: price sets P0/P1/P3 (all required names) and P2 (one required name missing), current / previous / next epoch, repeated claims, holder lists L0, L1 (same content, other order), L2; claimers: each validator's own account, an unbonded validator (last vector), a stranger",
-			"only-if direction as the property is worded: liveness (a quorum MUST update) is not demanded",
+			"claims: price sets P0/P1/P3 (all required names), P2 (one required name missing), P4 (every name twice) and P5 (P1 plus the names ETH and Eth - case variants of a required name - at another value), current / previous / next epoch, repeated claims, holder lists L0, L1 (same content, other order), L2 (thorough tier and the holder grid: also the empty list); claimers: each validator's own account, an unbonded validator (last vector), a stranger",
+			"only-if direction as the property is worded: liveness (a quorum MUST update) is not demanded for prices; for holder lists the other direction is checked too (a list more than two thirds of the stake reported identically is the one in force afterwards - a list left behind keeps discounts nobody attests any more), also from a state in which an earlier list is in force",
 			"weighted median = weight strictly below <= W/2 and weight strictly above <= W/2, exact stakes, tolerance n*W/65535 for the module's 16-bit power normalisation",
 		}
 	})
